@@ -33,6 +33,10 @@ def base_corpus():
     a(P("mutual2", E2 + V1 + ".decl ev(x:number)\n.decl od(x:number)\n.output ev\n.output od\nev(x) :- v(x).\nod(y) :- ev(x), e(x,y).\nev(y) :- od(x), e(x,y).\n", "recursive", m=3))
     a(P("mutual3", E2 + V1 + ".decl a(x:number)\n.decl b(x:number)\n.decl c(x:number)\n.output a\n.output b\n.output c\na(x) :- v(x).\nb(y) :- a(x), e(x,y).\nc(y) :- b(x), e(x,y).\na(y) :- c(x), e(x,y).\nc(x) :- a(x), b(x).\n", "recursive"))
     a(P("two_recursive_rels_join", E2 + ".decl p(x:number,y:number)\n.decl q(x:number,y:number)\n.output p\n.output q\np(x,y) :- e(x,y).\nq(x,y) :- p(x,y).\np(x,z) :- q(x,y), p(y,z).\nq(x,z) :- p(x,y), q(y,z), p(z,z).\n", "recursive"))
+    a(P("rec_nullary_gate", E2 + V1 + ".decl r(x:number)\n.decl g()\n.output r\n.output g\nr(x) :- v(x).\ng() :- r(x), e(x,x).\nr(y) :- r(x), e(x,y), g().\nr(y) :- r(x), e(x,y), x < y.\n", "recursive", m=3))
+    a(P("rec_nullary_first", E2 + V1 + ".decl r(x:number)\n.decl g()\n.output r\ng() :- r(x), v(x), e(x,_).\nr(x) :- e(x,x).\nr(y) :- g(), r(x), e(x,y).\n", "recursive", m=3))
+    a(P("rec_two_nullary", E2 + ".decl a()\n.decl b()\n.decl r(x:number)\n.output r\n.output b\nr(x) :- e(x,x).\na() :- r(x), e(x,y), x != y.\nb() :- a(), r(_).\nr(y) :- r(x), a(), b(), e(x,y).\n", "recursive", m=2))
+    a(P("rec_mutual_ternary", ".decl p0(x:number)\n.input p0\n.decl t(x:number)\n.input t\n.decl s(x:number,y:number,z:number)\n.input s\n.decl p(x:number)\n.decl q(x:number)\n.output p\np(x) :- p0(x).\nq(y) :- p(y), t(y).\np(z) :- p(x), q(y), s(x,y,z).\n", "recursive", m=2))
     a(P("multi_head", E2 + ".decl p(x:number)\n.decl q(x:number)\n.output p\n.output q\np(x), q(y) :- e(x,y).\n", "positive", m=3))
     a(P("disjunction", E2 + F2 + ".decl p(x:number)\n.output p\np(x) :- e(x,_) ; f(_,x).\n", "positive"))
     a(P("disjunction_nested", E2 + F2 + V1 + ".decl p(x:number)\n.output p\np(x) :- v(x), (e(x,_) ; f(x,_)).\n", "positive"))
@@ -89,6 +93,8 @@ def base_corpus():
     a(P("eqrel_basic", E2 + ".decl q(x:number,y:number) eqrel\n.output q\nq(x,y) :- e(x,y).\n", "eqrel", m=3))
     a(P("eqrel_join", E2 + V1 + ".decl q(x:number,y:number) eqrel\n.decl o(x:number,y:number)\n.output o\nq(x,y) :- e(x,y).\no(x,y) :- v(x), q(x,y).\n", "eqrel", m=3))
     a(P("eqrel_second_col", E2 + V1 + ".decl q(x:number,y:number) eqrel\n.decl o(x:number,y:number)\n.output o\nq(x,y) :- e(x,y).\no(x,y) :- v(y), q(x,y), x != y.\n", "eqrel", m=3))
+    a(P("eqrel_input_and_rules", F2 + V1 + ".decl q(x:number,y:number) eqrel\n.input q\n.decl o(x:number,y:number)\n.output o\nq(x,y) :- f(x,y).\no(x,y) :- v(x), q(x,y).\n", "eqrel", m=2))
+    a(P("eqrel_input_only", V1 + ".decl q(x:number,y:number) eqrel\n.input q\n.decl o(x:number,y:number)\n.output o\no(x,y) :- v(x), q(y,x), x != y.\n", "eqrel", m=3))
     a(P("eqrel_recursive", E2 + V1 + ".decl q(x:number,y:number) eqrel\n.decl r(x:number)\n.output q\n.output r\nq(x,y) :- e(x,y), r(x).\nr(x) :- v(x).\nr(y) :- q(x,y), r(x).\n", "eqrel"))
     return C
 
@@ -110,6 +116,9 @@ def opt_corpus():
     a(P("redundant_sum", E2 + V1 + ".decl c(x:number,n:number)\n.output c\nc(x,n) :- v(x), n = sum 3 : { e(x,_) }.\n", "opt"))
     a(P("duplicate_clauses", E2 + ".decl p(x:number,y:number)\n.output p\np(x,y) :- e(x,y), e(y,x).\np(a,b) :- e(b,a), e(a,b).\np(x,y) :- e(x,y), e(x,y), e(y,x).\n", "opt"))
     a(P("equivalent_relations", E2 + ".decl p(x:number,y:number)\n.decl q(x:number,y:number)\n.decl o(x:number)\n.output o\np(x,y) :- e(x,y).\np(x,z) :- p(x,y), e(y,z).\nq(a,b) :- e(a,b).\nq(a,c) :- q(a,b), e(b,c).\no(x) :- p(x,x), q(x,x).\n", "opt"))
+    a(P("minimise_instance", E2 + V1 + ".decl link(x:number,y:number)\n.decl loop(x:number,y:number)\n.decl o1(x:number,y:number)\n.decl o2(x:number,y:number)\n.output o1\n.output o2\nlink(x,y) :- e(x,y), v(y).\nloop(x,x) :- e(x,x), v(x).\no1(x,y) :- link(x,y), x != 9.\no2(x,y) :- loop(x,y), x != 9.\n", "opt", m=2))
+    a(P("minimise_instance_rev", E2 + V1 + ".decl aloop(x:number,y:number)\n.decl blink(x:number,y:number)\n.decl o1(x:number,y:number)\n.decl o2(x:number,y:number)\n.output o1\n.output o2\nblink(x,y) :- e(x,y), v(y).\naloop(x,x) :- e(x,x), v(x).\no1(x,y) :- blink(x,y), x != 9.\no2(x,y) :- aloop(x,y), x != 9.\n", "opt", m=2))
+    a(P("minimise_const_instance", E2 + ".decl a1(x:number,y:number)\n.decl a2(x:number,y:number)\n.decl o1(x:number,y:number)\n.decl o2(x:number,y:number)\n.output o1\n.output o2\na1(x,y) :- e(x,y), e(y,x).\na2(x,3) :- e(x,3), e(3,x).\no1(x,y) :- a1(x,y), x != y.\no2(x,y) :- a2(x,y), x != y.\n", "opt", m=2))
     a(P("inline_candidate", E2 + V1 + ".decl h(x:number,y:number)\n.decl p(x:number)\n.output p\nh(x,y) :- e(x,y), x < y.\nh(x,y) :- e(y,x), v(x).\np(x) :- v(x), h(x,_).\np(x) :- v(x), !h(x,x).\n", "opt"))
     a(P("inline_in_aggregate", E2 + V1 + ".decl h(x:number,y:number)\n.decl c(x:number,n:number)\n.output c\nh(x,y) :- e(x,y), x != y.\nc(x,n) :- v(x), n = count : { h(x,_) }.\n", "opt"))
     a(P("magic_bound_arg", E2 + ".decl p(x:number,y:number)\n.decl o(y:number)\n.output o\np(x,y) :- e(x,y).\np(x,z) :- p(x,y), e(y,z).\no(y) :- p(7,y).\n", "magic"))
@@ -130,6 +139,11 @@ def index_corpus():
     a(P("idx_strict_both", E2 + V1 + ".decl p(x:number,z:number)\n.output p\np(x,z) :- e(x,y), v(z), x < z, z < y.\n", "index", mode="L", n=2))
     a(P("idx_eq_and_range", E2 + F2 + ".decl p(x:number,w:number)\n.output p\np(x,w) :- e(x,y), f(x,w), w >= y, w != 2147483647.\n", "index", mode="L", n=2))
     a(P("idx_two_lower", E2 + V1 + ".decl p(z:number)\n.output p\np(z) :- e(x,y), v(z), z > x, z > y.\n", "index", mode="L", n=2))
+    a(P("idx_two_upper", E2 + V1 + ".decl p(z:number)\n.output p\np(z) :- e(x,y), v(z), z < x, z < y.\n", "index", mode="L", n=2))
+    a(P("idx_two_upper_weak", E2 + V1 + ".decl p(z:number)\n.output p\np(z) :- e(x,y), v(z), z <= x, z <= y.\n", "index", mode="L", n=2))
+    a(P("idx_two_lower_weak_upper", E2 + F2 + V1 + ".decl p(z:number)\n.output p\np(z) :- e(x,y), f(a,b), v(z), z >= x, z >= y, z <= a, z < b.\n", "index", mode="L", n=1))
+    a(P("idx_unsigned_two_upper", U2 + UV + ".decl p(z:unsigned)\n.output p\np(z) :- e(x,y), v(z), z <= x, z < y, z >= 1.\n", "index", mode="L", n=2))
+    a(P("idx_const_and_var_upper", E2 + V1 + ".decl p(z:number)\n.output p\np(z) :- e(x,_), v(z), z <= 5, z <= x, z > -5, z >= x - 3.\n", "index", mode="L", n=2))
     a(P("idx_unsigned_strict", U2 + UV + ".decl p(z:unsigned)\n.output p\np(z) :- e(x,y), v(z), x < z, z < y.\n", "index", mode="L", n=2))
     a(P("idx_unsigned_const", U2 + ".decl p(x:unsigned)\n.output p\np(x) :- e(x,y), y > 0, y < 4294967295, x >= 1.\n", "index", mode="L", n=2))
     a(P("idx_signed_const_extremes", E2 + ".decl p(x:number)\n.output p\np(x) :- e(x,y), y > -2147483648, x < 2147483647, x != y.\n", "index", mode="L", n=2))
@@ -170,20 +184,22 @@ def contract_corpus():
 def lattice_corpus():
     from . import models
     C = []
-    LAT = (".functor lub(a:number, b:number):number stateful\n.functor glb(a:number, b:number):number stateful\n.type L <: number\n"
+    LAT = (".type L <: number\n.functor lub(a:L, b:L):L stateful\n.functor glb(a:L, b:L):L stateful\n"
            ".lattice L<> {\n Bottom -> 0,\n Lub -> @lub(_,_),\n Glb -> @glb(_,_)\n}\n")
     EV = ".decl e(x:number,v:L)\n.input e\n"
     G2 = ".decl g(x:number,y:number)\n.input g\n"
 
-    def PL(name, body, **kw):
+    def PL(name, body, libs=("max", "or"), **kw):
         for lib, fm in (("max", {"lub": models.lub_max, "glb": models.glb_min}), ("or", {"lub": models.lub_or, "glb": models.glb_and})):
+            if lib not in libs:
+                continue
             c = P("%s_%s" % (name, lib), LAT + body, "lattice", judge="lattice", functors=fm, orders=("fwd", "rev"), **kw)
             c.functor_lib = lib
             C.append(c)
     PL("lat_nonrec", EV + ".decl r(x:number, v:L<>)\n.output r\nr(x,v) :- e(x,v).\n", m=3)
     PL("lat_two_rules", EV + ".decl f(x:number,v:L)\n.input f\n.decl r(x:number, v:L<>)\n.output r\nr(x,v) :- e(x,v).\nr(x,v) :- f(x,v).\n", m=2)
-    PL("lat_propagate", EV + G2 + ".decl r(x:number, v:L<>)\n.output r\nr(x,v) :- e(x,v).\nr(y,v) :- r(x,v), g(x,y).\n", m=2, max_loop=12)
-    PL("lat_propagate_join", EV + G2 + ".decl r(x:number, v:L<>)\n.output r\nr(x,v) :- e(x,v).\nr(y,@lub(v,w)) :- r(x,v), g(x,y), e(y,w).\n", m=2, max_loop=12)
+    PL("lat_propagate", EV + G2 + ".decl r(x:number, v:L<>)\n.output r\nr(x,v) :- e(x,v).\nr(y,v) :- r(x,v), g(x,y).\n", libs=("max",), m=1, max_loop=12)
+    PL("lat_propagate_join", EV + G2 + ".decl r(x:number, v:L<>)\n.output r\nr(x,v) :- e(x,v).\nr(y,@lub(v,w)) :- r(x,v), g(x,y), e(y,w).\n", libs=("max",), m=1, max_loop=12)
     PL("lat_two_keys", ".decl e3(x:number,y:number,v:L)\n.input e3\n.decl r(x:number, y:number, v:L<>)\n.output r\nr(x,y,v) :- e3(x,y,v).\n", m=2)
     return C
 
